@@ -66,15 +66,15 @@ type Contract struct {
 
 // SiteAssert: `before call <callee>#k assert <expr>`
 type SiteAssert struct {
-	Callee string
-	Ord    int // 0 = every site
+	Callee   string
+	Ord      int  // 0 = every site
 	Optional bool // may match no site at all (policy assertion)
-	Cl     Clause
+	Cl       Clause
 }
 
 var directives = map[string]bool{
 	"requires": true, "ensures": true, "let": true, "modifies": true, "nopanic": true, "loop": true,
-	"mode": true, "trusted": true, "before": true,
+	"mode": true, "trusted": true, "before": true, "some": true,
 }
 
 func parseContracts(src, pkgName, file string) ([]*Contract, map[string]*define, error) {
